@@ -44,6 +44,7 @@ pub fn gen_op_fault(r: &mut Rng, op: &mut Op) {
                 nth: r.below(2) as u32,
                 status: if r.bool() { *r.pick(&[0x2E, 0x27, 0x7F, 0x28, 0x01]) } else { r.below(256) as u8 },
                 sticky: r.chance(1, 4),
+                late: false,
             });
         }
         1 => {
@@ -64,7 +65,7 @@ pub fn gen_op_fault(r: &mut Rng, op: &mut Op) {
         }
         2 => op.cancel_after = Some(r.below(14) as u32),
         _ => {
-            op.faults.push(Fault { seam: SeamKind::Save, nth: 0, status: 0x28, sticky: false });
+            op.faults.push(Fault { seam: SeamKind::Save, nth: 0, status: 0x28, sticky: false, late: false });
             op.cancel_after = Some(r.range(2, 14) as u32);
         }
     }
